@@ -16,6 +16,10 @@ import (
 func c13Options() []EncoderOption {
 	opts := []EncoderOption{WithEncoderStrictMode(true)}
 	if vsymTier() == 1 && !c13Joint {
+		c13Mode = vsymChoose(2)
+		if c13Mode == 1 {
+			return opts
+		}
 		if vsymBool() {
 			opts = append(opts, WithASCIIQuote(QuoteSingle))
 		}
@@ -56,10 +60,19 @@ var c13Cfg int
 // largest ASCII bound, where the full option x header product does not finish).
 var c13Joint bool
 
+// c13Mode (thorough tier): 0 = the full option product under one fixed header, 1 = the
+// stream/function/W boundary product under the default options. Options shape the item text,
+// the header is rendered and parsed by separate code: the two products are explored side by side,
+// not multiplied.
+var c13Mode int
+
 func c13Header() (byte, byte, bool) {
 	if vsymTier() == 1 && !c13Joint {
-		ss := []byte{0, 9, 10, 127}
-		fs := []byte{0, 1, 99, 100, 255}
+		if c13Mode == 0 {
+			return 1, 1, true
+		}
+		ss := []byte{0, 1, 9, 10, 99, 100, 127}
+		fs := []byte{0, 1, 2, 13, 99, 100, 255}
 		s, f := ss[vsymChoose(len(ss))], fs[vsymChoose(len(fs))]
 		return s, f, f%2 == 1 && vsymBool()
 	}
